@@ -12,6 +12,8 @@ package c09
 //   I<k> / IF<k> / IT<k>  pool.CheckAndInit with slot k chosen by the downstream context (a dial made by it succeeds /
 //                         is refused / times out); IA: no slot in the context, the pool's round-robin counter chooses
 //   N<k>                  pool.NewStream with slot k in the context (+ send the request)
+//   O<k>                  a ONE-WAY request: pool.NewStream(ctx, nil) with slot k in the context (+ send a bolt one-way
+//                         request frame); the stream gets no response and is never destroyed or reset
 //   R<s> L<s> X<s>        upstream answers stream s / local reset of stream s / garbage on the connection of stream s
 //   G<c>                  go-away frame on open connection c
 //   CR<c> / CL<c>         open connection c is closed by the upstream / by MOSN
@@ -117,7 +119,8 @@ func (w *world) muxSnapshot() string {
 	} else {
 		sb.WriteString(";d0")
 	}
-	fmt.Fprintf(&sb, ";q%d;n", w.reqResource().Cur())
+	g := w.gauges()
+	fmt.Fprintf(&sb, ";q%d;a%d:%d;n", w.reqResource().Cur(), g.reqHost, g.reqCluster)
 	for _, m := range w.conns {
 		switch {
 		case m.mosnClosed() && m.upEOF():
@@ -145,6 +148,13 @@ func (w *world) muxSnapshot() string {
 		fmt.Fprintf(&sb, ":%d", d)
 	}
 	return sb.String()
+}
+
+// ppOneway: a bolt one-way request (command type RequestOneway: the codec reports api.RequestOneWay).
+func ppOneway() api.HeaderMap {
+	r := bolt.NewRpcRequest(0, nil, nil)
+	r.CmdType = bolt.CmdTypeRequestOneway
+	return r
 }
 
 func (w *world) muxApply(op string) string {
@@ -219,6 +229,44 @@ func (w *world) muxApply(op string) string {
 			}
 		}
 		res = fmt.Sprintf("ok%d", rec.conn)
+	case strings.HasPrefix(op, "O"):
+		// a one-way request: no receiver; the proxy sends the request and forgets the stream
+		ctx := muxCtx(num("O"))
+		_, sender, reason := w.pool.NewStream(ctx, nil)
+		if reason != "" || sender == nil {
+			switch reason {
+			case types.Overflow:
+				res = "ovf"
+			case types.ConnectionFailure:
+				res = "cf"
+			default:
+				res = "fail"
+			}
+			break
+		}
+		ci := -1
+		if idv, err := variable.Get(ctx, types.VariableUpstreamConnectionID); err == nil {
+			if id, ok := idv.(uint64); ok {
+				ci = w.connIndexByID(id)
+			}
+		}
+		if ci < 0 {
+			res = "noconn"
+			break
+		}
+		m := w.conns[ci]
+		before := int64(0)
+		if m.up != nil {
+			before = atomic.LoadInt64(&m.up.got)
+		}
+		sender.AppendHeaders(ctx, ppOneway(), true)
+		if m.up != nil {
+			if !waitFor(settleTimeout, func() bool { return atomic.LoadInt64(&m.up.got) > before || m.mosnClosed() }) {
+				w.timeouts++
+			}
+		}
+		w.oneways++
+		res = fmt.Sprintf("ok%d", ci)
 	case strings.HasPrefix(op, "R"):
 		w.response(num("R"), false)
 	case strings.HasPrefix(op, "X"):
@@ -326,6 +374,8 @@ func (w *world) muxValid(op string) bool {
 		return slotOK(num("I"))
 	case strings.HasPrefix(op, "N"):
 		return slotOK(num("N"))
+	case strings.HasPrefix(op, "O"):
+		return slotOK(num("O"))
 	case strings.HasPrefix(op, "R"):
 		return in(w.liveStreams(), num("R"))
 	case strings.HasPrefix(op, "X"):
@@ -378,10 +428,14 @@ func muxRunOps(c *hx.Ctx, maxConn, maxReq uint32, next func(w *world, step int) 
 }
 
 func muxEmit(c *hx.Ctx, maxConn, maxReq uint32, ops, obs []string, w *world) {
+	muxEmitFor(c, "C09", maxConn, maxReq, ops, obs, w)
+}
+
+func muxEmitFor(c *hx.Ctx, prop string, maxConn, maxReq uint32, ops, obs []string, w *world) {
 	if len(ops) == 0 {
 		return
 	}
-	c.Emit("C09", fmt.Sprintf("mux %d %d %s", maxConn, maxReq, strings.Join(ops, ",")), strings.Join(obs, " "))
+	c.Emit(prop, fmt.Sprintf("mux %d %d %s", maxConn, maxReq, strings.Join(ops, ",")), strings.Join(obs, " "))
 	for _, o := range ops {
 		c.Count("mux.op." + strings.TrimRight(o, "0123456789"))
 	}
@@ -418,6 +472,7 @@ func muxGen(rng *hx.Rng, length int) func(w *world, step int) string {
 			add(fmt.Sprintf("IF%d", k), 2)
 			add(fmt.Sprintf("IT%d", k), 2)
 			add(fmt.Sprintf("N%d", k), 24/len(slots)+1)
+			add(fmt.Sprintf("O%d", k), 10/len(slots)+1)
 		}
 		add("IA", 3)
 		for _, s := range live {
@@ -472,9 +527,21 @@ var muxBoundary = [][]string{
 	{"I0", "N0", "Z", "I0", "N0"},
 	{"I0", "I1", "N0", "N1", "G0", "I0", "R0", "N0", "N1"},
 	{"IA", "IA", "IA", "N0", "N1", "R0", "R1"},
+	// one-way requests: they hold nothing — the breaker admits the next request after any number of them
+	{"I0", "I0", "O0", "O0", "O0", "N0", "N0", "R0", "O0", "N0"},
+	{"O0", "I0", "I0", "O0", "N0", "O0", "R0", "O0"},
+	{"E+", "I0", "I0", "O0", "N0", "O0", "E-", "O0", "N0", "O0"},
+	{"I0", "I0", "O0", "G0", "O0", "I0", "I0", "O0", "N0", "R0"},
+	{"I0", "I0", "N0", "O0", "CR0", "O0", "I0", "I0", "O0", "N0"},
+	{"I0", "I1", "I0", "O0", "O1", "N0", "N1", "O0", "O1", "R0", "R1"},
+	{"I0", "I0", "O0", "O0", "Z", "O0", "I0", "I0", "O0", "N0", "N0"},
 }
 
-func runMux(c *hx.Ctx) {
+func runMux(c *hx.Ctx) { RunMux(c, "C09", c.N(250, 3000)) }
+
+// RunMux runs the multiplex pool histories and emits them as cases of property prop (C09; C10 reuses them for the
+// requests breaker and the request_active gauges, one-way requests included).
+func RunMux(c *hx.Ctx, prop string, n int) {
 	lims := []uint32{0, 1, 2}
 	for _, mc := range lims {
 		for _, mr := range lims {
@@ -483,12 +550,11 @@ func runMux(c *hx.Ctx) {
 					continue
 				}
 				ops, obs, w := muxRunOps(c, mc, mr, scripted(b))
-				muxEmit(c, mc, mr, ops, obs, w)
+				muxEmitFor(c, prop, mc, mr, ops, obs, w)
 			}
 		}
 	}
 	rng := c.Rng.Fork()
-	n := c.N(250, 3000)
 	for i := 0; i < n; i++ {
 		mc := uint32(rng.Intn(3))
 		mr := uint32(rng.Intn(3))
@@ -497,6 +563,6 @@ func runMux(c *hx.Ctx) {
 		}
 		length := 3 + rng.Intn(10)
 		ops, obs, w := muxRunOps(c, mc, mr, muxGen(rng, length))
-		muxEmit(c, mc, mr, ops, obs, w)
+		muxEmitFor(c, prop, mc, mr, ops, obs, w)
 	}
 }
